@@ -59,6 +59,10 @@ def site(F, which):
     if not nx:
         # the loop over the tetrahedra lives in a crate-local helper that was inlined into this evaluation (decision passed in as a closure or flag)
         nx = [e for e in ip.events if e.callee and 'ConvexCellDecomposition' in e.callee and e.callee.endswith('::next')]
+    if len(nx) > 1:
+        # an early `return` / `continue` before the loop leaves no join point: the loop is evaluated once per way of reaching it
+        from .scen import merge_same_site
+        nx = merge_same_site(nx)
     if len(nx) != 1:
         raise AnalysisIncomplete('%s: %d reads of the tetrahedron stream' % (b['path'], len(nx)), b['path'])
     s.next = nx[0]
@@ -69,9 +73,10 @@ def site(F, which):
     s.hs = repr(I.get_index(I.get_field(cell, 'clipping_planes'), s.K))
     s.right = s.hs + '.right_idx.Some.0'
     # creation events: Option::get_or_insert / get_or_insert_with on the per-plane slot
-    s.creations = [e for e in ip.events if e.callee and e.callee.startswith('std::option::Option::<T>::get_or_insert') and e.in_loop]
-    s.collects = [e for e in ip.events if e.callee and strip_generics(e.callee).endswith(('VoronoiFace::collect', 'FaceIntegrator::collect')) and e.in_loop]
-    s.inits = [e for e in ip.events if e.callee and strip_generics(e.callee).endswith(('VoronoiFace::init', 'FaceIntegrator::init'))]
+    from .scen import merge_same_site as _mss
+    s.creations = _mss([e for e in ip.events if e.callee and e.callee.startswith('std::option::Option::<T>::get_or_insert') and e.in_loop])
+    s.collects = _mss([e for e in ip.events if e.callee and strip_generics(e.callee).endswith(('VoronoiFace::collect', 'FaceIntegrator::collect')) and e.in_loop])
+    s.inits = _mss([e for e in ip.events if e.callee and strip_generics(e.callee).endswith(('VoronoiFace::init', 'FaceIntegrator::init'))])
     s.by_assignment = False
     if not s.creations:
         # the same thing written out: `if slot.is_none() { if <decision> { *slot = Some(init(cell, K)) } }` — the record constructor runs
